@@ -1,5 +1,6 @@
 """Models of the Python builtins / container methods that the target functions use."""
 import ast, builtins, string as _string, itertools, os, enum, types, io
+import copy as _copy
 import z3
 from .sym import *
 from .interp import PyRaise, SObj, HList, HDict, Closure, GuardedItem, Seg, has_seg
@@ -157,6 +158,14 @@ def builtin(eng, fn, args, kwargs):
             raise Unsupported(fn.__name__ + " on symbolic")
     if fn is id and len(args) == 1 and isinstance(args[0], (SObj, HList, HDict)):
         return id(args[0])    # identity of a heap object of the interpreter: concrete and unique while the run lasts
+    if fn is _copy.copy and len(args) == 1 and isinstance(args[0], (SObj, HList)):
+        # shallow copy: a new heap object whose fields / items are the same values (lists inside stay shared, as in Python)
+        src = args[0]
+        if isinstance(src, SObj):
+            if "__copy__" in getattr(src.cls, "__dict__", {}):
+                raise Unsupported("copy.copy of a class with __copy__")
+            return SObj(src.cls, dict(src.fields))
+        return HList(list(src.items))
     if fn is itertools.chain:
         out = []
         for a in args:
